@@ -131,12 +131,12 @@ PROPS["C11"] = {
 }
 
 PROPS["C16"] = {
-    "props": ["OsmVerif.Props.C16"],
+    "props": ["OsmVerif.Props.C16", "OsmVerif.Props.C16b"],
     "gens": [],
     "required_theorems": ["join_partitions_input", "join_preserves_edges", "grow_complete", "hole_assigned", "hole_without_outer",
-                          "coords_source_independent", "ring_orientation", "orientation_annotation", "join_groups_closed", "join_groups_are_components", "cut_rings_condition"],
+                          "coords_source_independent", "ring_orientation", "orientation_annotation", "join_groups_closed", "join_groups_are_components", "cut_rings_condition", "cut_rings_deg"],
     "technique": "Lean 4 theorems about a hand-written executable model of mputil.Join/Ring and osmgeojson.buildPolygon over lattice points (ghost field for the untrimmed oriented line); tied by a differential line protocol through osmgeojson.Convert and by a ground-truth ring oracle",
-    "level_text": "Machine-checked proof, for every list of member lines (any number, size, order, direction), that the model of mputil.Join uses every input segment in exactly one output group (possibly reversed, the reversed flag recording it), glues pieces only at shared end points so that the edges of each output line string are exactly the edges of its members' full lines (nothing lost, duplicated or invented), and never stops growing a group for lack of fuel (termination); that a closed group with non-zero area is returned with the requested winding (outers CCW, inners CW) when members carry no annotation; that each hole is attached to the first containing outer and dropped otherwise; that way-node coordinates and node-object coordinates give the same line; and that annotation writes to each member the direction in which it runs around the joined ring. and that for pieces cut from rings - every end point shared by exactly two piece ends, which holds whenever each cut point is where exactly one piece ends and one begins and survives reversing and reordering pieces - EVERY group Join builds is closed (no ring is left open, for any number of rings and pieces). and no piece outside a group shares an end point with a piece inside it, so the groups are exactly the closed chains of pieces that hang together through shared end points - for pieces cut from vertex-disjoint simple rings, the rings themselves, with every edge of every ring exactly once (join_preserves_edges). What stays outside Lean is only the geometric reading of the hypothesis (that cutting vertex-disjoint simple rings gives pieces whose end points are pairwise distinct cut points), and the float predicates of hole assignment; both are checked against ground truth for all cut/reverse choices of a rectangle with a hole and ~3000 random multi-ring instances per run, both coordinate sources, with and without annotations.",
+    "level_text": "Machine-checked proof, for every list of member lines (any number, size, order, direction), that the model of mputil.Join uses every input segment in exactly one output group (possibly reversed, the reversed flag recording it), glues pieces only at shared end points so that the edges of each output line string are exactly the edges of its members' full lines (nothing lost, duplicated or invented), and never stops growing a group for lack of fuel (termination); that a closed group with non-zero area is returned with the requested winding (outers CCW, inners CW) when members carry no annotation; that each hole is attached to the first containing outer and dropped otherwise; that way-node coordinates and node-object coordinates give the same line; and that annotation writes to each member the direction in which it runs around the joined ring. and that for pieces cut from rings - every end point shared by exactly two piece ends, which holds whenever each cut point is where exactly one piece ends and one begins and survives reversing and reordering pieces - EVERY group Join builds is closed (no ring is left open, for any number of rings and pieces). and no piece outside a group shares an end point with a piece inside it, so the groups are exactly the closed chains of pieces that hang together through shared end points - for pieces cut from vertex-disjoint simple rings, the rings themselves, with every edge of every ring exactly once (join_preserves_edges). The hypothesis is discharged for cut rings themselves (cut_rings_deg): any number of rings with pairwise distinct vertices, each cut at one or more of its vertices into pieces running from one cut to the next (the last wrapping around), any pieces reversed, listed in any order. What stays outside Lean is that a piece list handed to Join by buildPolygon really is such a cutting (that is a fact about the input data), and the float predicates of hole assignment; both are checked against ground truth for all cut/reverse choices of a rectangle with a hole and ~3000 random multi-ring instances per run, both coordinate sources, with and without annotations.",
     "level_note": "Trusted: Lean kernel; correspondence harness (model vs osmgeojson.Convert and annotate.Relations, plus a ground-truth ring oracle); float arithmetic (shoelace area, ray casting in polygonContains) is exact on the integer lattice used and modelled with exact integer arithmetic; orb.Ring.Orientation/Reverse/Closed modelled by hand.",
     "design_ref": "DESIGN.md §5 C16/C17",
     "trusted_base": ["models Model/Geo.lean, Model/Convert.lean are hand-written; tie = differential stream through osmgeojson.Convert"],
